@@ -966,10 +966,9 @@ struct json_object *json_tokener_parse_ex(struct json_tokener *tok, const char *
 				char *e_loc = strchr(tok->pb->buf, 'e');
 				if (!e_loc)
 					e_loc = strchr(tok->pb->buf, 'E');
+				char *last_saved_char = &tok->pb->buf[printbuf_length(tok->pb) - 1];
 				if (e_loc)
 				{
-					char *last_saved_char =
-					    &tok->pb->buf[printbuf_length(tok->pb) - 1];
 					is_exponent = 1;
 					pos_sign_ok = neg_sign_ok = 1;
 					/* If the "e" isn't at the end, we can't start with a '-' */
@@ -979,6 +978,12 @@ struct json_object *json_tokener_parse_ex(struct json_tokener *tok, const char *
 						pos_sign_ok = 0;
 					}
 					// else leave it set to 1, i.e. start of the new input
+				}
+				else
+				{
+					/* Mid-number: a sign may only follow the decimal point,
+					   exactly as when the number arrives in a single call. */
+					pos_sign_ok = neg_sign_ok = (*last_saved_char == '.');
 				}
 			}
 
@@ -1037,7 +1042,7 @@ struct json_object *json_tokener_parse_ex(struct json_tokener *tok, const char *
 				printbuf_memappend_checked(tok->pb, case_start, case_len);
 
 			// Check for -Infinity
-			if (tok->pb->buf[0] == '-' && case_len <= 1 && (c == 'i' || c == 'I'))
+			if (tok->pb->buf[0] == '-' && printbuf_length(tok->pb) <= 1 && (c == 'i' || c == 'I'))
 			{
 				state = json_tokener_state_inf;
 				tok->st_pos = 0;
